@@ -264,6 +264,30 @@ func pluginContain(r *Run, it Item) {
 			}
 		}
 	}
+	// 3b. a lock that is released by an explicit Unlock (not a deferred one) is released on every
+	// path: from the Lock, no path reaches a return, the Lock itself again (next loop iteration) or
+	// another Lock of the same mutex without passing an Unlock of it.  A path that skips the Unlock
+	// wedges every goroutine that needs the mutex afterwards -- other connections included.
+	nrel := 0
+	for _, k := range keys {
+		fn := e.funcs[k]
+		if strings.Contains(k, "Mock") || fn.Synthetic != "" {
+			continue
+		}
+		for _, b := range fn.Blocks {
+			for i, ins := range b.Instrs {
+				c, ok := ins.(*ssa.Call)
+				if !ok || !isLockCall(calleeStr(&c.Call)) || len(c.Call.Args) == 0 {
+					continue
+				}
+				if deferredUnlockFollows(b.Instrs[i+1:]) {
+					continue
+				}
+				nrel++
+				yes(fmt.Sprintf("%s#contain:lock-released-on-every-path.%d", k, nrel), lockReleasedOnAllPaths(c, b, i), e.pos(c.Pos()))
+			}
+		}
+	}
 	// 4. dispatcher
 	if fn := e.funcs["hotline.(*Server).processOutbox"]; fn != nil {
 		clean := true
@@ -327,4 +351,90 @@ func sortStrings(s []string) {
 			s[j], s[j-1] = s[j-1], s[j]
 		}
 	}
+}
+
+func isLockCall(name string) bool {
+	return strings.HasSuffix(name, "sync.Mutex).Lock") || strings.HasSuffix(name, "sync.RWMutex).Lock") || strings.HasSuffix(name, "sync.RWMutex).RLock")
+}
+
+func isUnlockCall(name string) bool {
+	return strings.HasSuffix(name, "sync.Mutex).Unlock") || strings.HasSuffix(name, "sync.RWMutex).Unlock") || strings.HasSuffix(name, "sync.RWMutex).RUnlock")
+}
+
+func deferredUnlockFollows(rest []ssa.Instruction) bool {
+	for _, nx := range rest {
+		switch d := nx.(type) {
+		case *ssa.Defer:
+			return isUnlockCall(calleeStr(&d.Call))
+		case *ssa.FieldAddr, *ssa.UnOp, *ssa.DebugRef:
+			continue
+		default:
+			return false
+		}
+	}
+	return false
+}
+
+// sameMutex: the two receiver operands denote the same mutex (same value, or the same field of
+// the same object).
+func sameMutex(a, b ssa.Value) bool {
+	if a == b {
+		return true
+	}
+	fa, ok1 := a.(*ssa.FieldAddr)
+	fb, ok2 := b.(*ssa.FieldAddr)
+	if ok1 && ok2 && fa.Field == fb.Field {
+		return sameMutex(fa.X, fb.X) || sameLoad(fa.X, fb.X)
+	}
+	return false
+}
+
+func sameLoad(a, b ssa.Value) bool {
+	ua, ok1 := a.(*ssa.UnOp)
+	ub, ok2 := b.(*ssa.UnOp)
+	return ok1 && ok2 && ua.Op == ub.Op && (ua.X == ub.X || sameMutex(ua.X, ub.X))
+}
+
+// lockReleasedOnAllPaths walks the control flow graph from the instruction after the Lock.
+func lockReleasedOnAllPaths(lock *ssa.Call, blk *ssa.BasicBlock, idx int) bool {
+	mu := lock.Call.Args[0]
+	seen := map[*ssa.BasicBlock]bool{}
+	var walk func(b *ssa.BasicBlock, from int) bool
+	walk = func(b *ssa.BasicBlock, from int) bool {
+		for _, ins := range b.Instrs[from:] {
+			switch c := ins.(type) {
+			case *ssa.Call:
+				name := calleeStr(&c.Call)
+				if len(c.Call.Args) > 0 && sameMutex(c.Call.Args[0], mu) {
+					if isUnlockCall(name) {
+						return true
+					}
+					if isLockCall(name) {
+						return false // locked again (the next iteration, or a second Lock) while still held
+					}
+				}
+			case *ssa.Return, *ssa.Panic:
+				return false
+			}
+		}
+		for _, s := range b.Succs {
+			if s == blk && !seen[s] {
+				// back to the block of the Lock: re-entered from its start
+				seen[s] = true
+				if !walk(s, 0) {
+					return false
+				}
+				continue
+			}
+			if seen[s] {
+				continue
+			}
+			seen[s] = true
+			if !walk(s, 0) {
+				return false
+			}
+		}
+		return true
+	}
+	return walk(blk, idx+1)
 }
